@@ -3,6 +3,7 @@ import SSVerif.Model.BinMdef
 import SSVerif.Model.Assembly
 import SSVerif.Model.S3fileLedger
 import SSVerif.Model.TmatTopo
+import SSVerif.Model.ReadFlags
 import Driver.Util
 /-! driver sub-command `c17`: runs the byte reader / read plans of `Model/S3file` on byte strings
 (hex or a file with an edit list) — same line protocol as `harness/h_c17.c s3`. -/
@@ -312,6 +313,28 @@ def runCase (cache : IO.Ref Cache) (ws : List String) : IO String := do
               | _ => false
             showLedger (reprStr (mdefStage r)) (Ledger.mdef sw (mdefStage r)) Ledger.mdefName))
     | none => pure s!"{id} bad-src"
+  | [id, "mdefc", src, ed, ci] =>
+    -- `bin_mdef_read_s3file(s, cionly)` (Model/ReadFlags.lean): the line of `mdef`, cd_tree offset -1 when NULL
+    match ← loadSrc cache src ed with
+    | some s =>
+      let r := mdefPlanCi s.file (ci = "1")
+      let rp := mdefPlan s.file
+      pure (s!"{id} {showRes r fun oc =>
+        let o := oc.out; let h := o.hdr; let l := o.lay
+        let tree : Int := match oc.cdTree with | some t => ((t - h.dataOff : Nat) : Int) | none => -1
+        s!"ok {b2s h.swap} {h.nCiphone} {h.nPhone} {h.nEmit} {h.nCiSen} {h.nSen} {h.nTmat} {h.nSseq} {h.nCdTree} {o.sil} {tree} {l.phoneOff - h.dataOff} {l.sseqOff - h.dataOff} {mapHash o.cd2cisen} {mapHash o.sen2cimap}"} | site={site r}"
+        ++ (let sw := match mdefHeader s.file with
+              | .ok h => h.swap
+              | _ => false
+            showLedger (reprStr (mdefStage rp)) (Ledger.mdef sw (mdefStage rp)) Ledger.mdefName))
+    | none => pure s!"{id} bad-src"
+  | [id, "maplen", size, page] =>
+    -- the length bookkeeping of mmio.c: what munmap is given for a file of `size` bytes, pages mapped / unmapped
+    match size.toNat?, page.toNat? with
+    | some sz, some pg =>
+      let m := mmioLife sz pg
+      pure s!"{id} {m.mapped} {m.unmapped} {pagesOf m.mapped pg} {pagesOf m.unmapped pg}"
+    | _, _ => pure s!"{id} bad-src"
   | [id, "sen", src, ed] =>
     match ← loadSrc cache src ed with
     | some s =>
